@@ -1,0 +1,14 @@
+//go:build verif
+
+// Contracts for the verification machinery in /verif (comment-only; compiled only with -tags verif).
+
+package canonicalizer
+
+// canonical (JCS) bytes of a value: a partial function of the value (C07's subject, assumed here)
+//@ spec jcsOK(v any) bool
+//@ spec jcs(v any) bytes
+//@ func MarshalCanonical
+//@   trusted
+//@   results out, err
+//@   ensures (err == nil) == jcsOK(value)
+//@   ensures err == nil ==> out == jcs(value)
